@@ -166,9 +166,11 @@ def stepTx (d : DState) (rest : List String) : DState × String :=
     (d', render d' (resName true r))
 
 def stepAll (d : DState) (f : List String) : DState × String :=
-  match f with
-  | "tx" :: rest => stepTx d rest
-  | _ => step d f
+  let (d', out) := match f with
+    | "tx" :: rest => stepTx d rest
+    | _ => step d f
+  -- the side condition of `agreement_inv` (`SafeRun` / `CoveredRun`), evaluated in every state of every trace
+  if LC.coveredB d'.st then (d', out) else (d', "model-invariant-broken: a descriptor of M-LC outside every state info of M-Core | " ++ out)
 
 def drv : Drv := { σ := DState, init := default, step := stepAll }
 
